@@ -281,8 +281,10 @@ def main(argv=None):
                             engine_notes=notes, samples=samples or [dict(note='no sample')],
                             failing=[dict(id=f['id'], status=f['status']) for f, _, _ in violations]),
               assumptions=assumptions, wall_s=round(wall, 2), violations=len(violations))
-    os.makedirs(os.path.join(ROOT, 'evidence'), exist_ok=True)
-    json.dump(ev, open(os.path.join(ROOT, 'evidence', pid + '.json'), 'w'), indent=1, default=str)
+    # evidence is only recorded for runs against the repository itself; scratch trees (seeded changes) write elsewhere
+    evdir = os.path.join(ROOT, 'evidence') if os.path.realpath(repo) == '/repo' else os.path.join(ROOT, '.tmp', 'evidence')
+    os.makedirs(evdir, exist_ok=True)
+    json.dump(ev, open(os.path.join(evdir, pid + '.json'), 'w'), indent=1, default=str)
     print('%s: %d obligations, %d discharged, %d bounded checks, %d ground, %.1fs' % (pid, total, discharged, len(bounded), len(ground), wall))
     if a.v:
         for r in results:
